@@ -1062,7 +1062,7 @@ pub fn handle(op: &str, a: &[&str]) -> Option<Resp> {
 
 // ------------------------------------------------------------------ generators
 
-pub const STARTS: [(&str, bool); 66] = [
+pub const STARTS: [(&str, bool); 74] = [
     ("", false),
     ("a", false),
     ("a (>= 1)", false),
@@ -1135,6 +1135,17 @@ pub const STARTS: [(&str, bool); 66] = [
     ("a : any (>= 1), b", false),
     ("a\n :any [amd64]", false),
     ("a:any\n (>= 1) [ amd64 ]", false),
+    // the layouts of Props/C11Layout.lean: blanks inside RELATION nodes before `|` and `,`, a tab before
+    // `|`, folded lines, trailing comma followed by blanks / a line break / nothing, blanks behind a
+    // substitution variable, a field of blanks only
+    ("a:any | b, c", false),
+    ("a | b:any  , c ", false),
+    ("a ,\n b\t| c:any  | d, ${x} ,e ,", true),
+    ("${x:y} ,\n a\t|\tb ", true),
+    ("a, ${x:y} ", true),
+    ("a ,\n ", false),
+    ("a,\n", false),
+    (" ", false),
 ];
 
 fn op_pool() -> Vec<String> {
